@@ -20,7 +20,7 @@ def jobs(props):
         d = "/tmp/seed/%s/out" % p
         for n in (1, 2):
             patch = os.path.join(d, "change%d.diff" % n)
-            demo = next((os.path.join(d, f) for f in ("demo%d.rs" % n, "demo%d.sh" % n) if os.path.exists(os.path.join(d, f))), None)
+            demo = next((os.path.join(d, f) for f in ("demo%d.sh" % n, "demo%d.rs" % n) if os.path.exists(os.path.join(d, f))), None)
             if os.path.exists(patch) and demo:
                 out.append((p, n, patch, demo))
     return out
@@ -62,13 +62,16 @@ def main():
             det = {"raw": r.stdout[-800:]}
         os.makedirs(dst, exist_ok=True)
         shutil.copy(patch, os.path.join(dst, "patch.diff"))
-        shutil.copy(demo, os.path.join(dst, "demo" + os.path.splitext(demo)[1]))
+        for ext in (".sh", ".rs"):
+            f = os.path.join(os.path.dirname(patch), "demo%d%s" % (n, ext))
+            if os.path.exists(f):
+                shutil.copy(f, os.path.join(dst, "demo%d%s" % (n, ext)))
         md = os.path.join(os.path.dirname(patch), "change%d.md" % n)
         if os.path.exists(md):
             shutil.copy(md, os.path.join(dst, "change.md"))
         caught = det.get(p, {}).get("exit") == 1
         meta = {"property": p, "origin": "independent sub-agent given only the property text and a scratch worktree",
-                "needs_to_manifest": "see change.md", "confirmation": c,
+                "description_and_what_it_needs_to_manifest": (open(md).read() if os.path.exists(md) else "see change.md"), "confirmation": c,
                 "ran": ["driver/seedtest.py confirm patch.diff demo (scratch worktree: suite + demo with/without)", "driver/seedtest.py detect patch.diff %s (git apply to /repo, ./check %s --tier quick, git checkout)" % (p, p)],
                 "detection": {"check": p, "tier": "quick", "caught": caught, "result": det.get(p, det)}}
         json.dump(meta, open(os.path.join(dst, "meta.json"), "w"), indent=1)
